@@ -34,7 +34,9 @@ type TextRenderer struct {
 }
 
 // maxDigits bounds the number of fractional digits: every cell is rendered with
-// that many digits, so an absurd value makes the command run out of memory.
+// that many digits, so an absurd value makes the command run out of memory
+// (and an absurd negative value makes rounding compute a power of ten with that
+// many digits).
 const maxDigits = 1000
 
 var (
@@ -44,8 +46,8 @@ var (
 
 // Render renders this table to a string.
 func (r *TextRenderer) Render(t *Table, w io.Writer) error {
-	if r.Round > maxDigits {
-		return fmt.Errorf("cannot round to %d digits (at most %d)", r.Round, maxDigits)
+	if r.Round > maxDigits || r.Round < -maxDigits {
+		return fmt.Errorf("cannot round to %d digits (at most %d, at least -%d)", r.Round, maxDigits, maxDigits)
 	}
 	r.table = t
 	color.NoColor = !r.Color
